@@ -264,9 +264,11 @@ class SpecFn(object):
         it = iter(zargs)
         for (nm, k) in self.params:
             if k == "int":
-                env[nm] = SInt(next(it))
+                x = next(it)
+                env[nm] = x.as_long() if z3.is_int_value(x) else SInt(x)     # numerals stay concrete
             elif k == "bool":
-                env[nm] = SBool(next(it))
+                x = next(it)
+                env[nm] = True if z3.is_true(x) else (False if z3.is_false(x) else SBool(x))
             elif k in ("Bytes", "IntList"):
                 a = next(it); n = next(it)
                 env[nm] = SSeq(n, sym.bytes_get(a) if k == "Bytes" else (lambda a: lambda i: SInt(z3.Select(a, i)))(a), kind="bytes" if k == "Bytes" else "list", base=(nm, a, n))
@@ -281,23 +283,7 @@ class SpecFn(object):
 
     def instance(self, zargs):
         """the defining equation instantiated at the given z3 argument terms"""
-        env = {}
-        it = iter(zargs)
-        for (nm, k) in self.params:
-            if k == "int":
-                env[nm] = SInt(next(it))
-            elif k == "bool":
-                env[nm] = SBool(next(it))
-            elif k in ("Bytes", "IntList"):
-                a = next(it); n = next(it)
-                env[nm] = SSeq(n, sym.bytes_get(a) if k == "Bytes" else (lambda a: lambda i: SInt(z3.Select(a, i)))(a), kind="bytes" if k == "Bytes" else "list", base=(nm, a, n))
-            elif k == "PairList":
-                a = next(it); b = next(it); n = next(it)
-                env[nm] = SSeq(n, (lambda a, b: lambda i: (SInt(z3.Select(a, i)), SInt(z3.Select(b, i))))(a, b), kind="list", base=(nm, a, b, n))
-            elif k == "IntSet":
-                env[nm] = SSet(next(it))
-            elif k == "IntSeq":
-                env[nm] = sym.ZSeq(next(it))
+        env = self._env(zargs)
         saved = sym.drain_facts()
         body = _Translator(self).block(self.node.body, env)
         facts = sym.drain_facts()
@@ -522,6 +508,8 @@ class _Translator(object):
             idx = self.expr(e.slice, env)
             if isinstance(base, SSeq):
                 return base.get(_ie(idx))
+            if isinstance(base, sym.ZSeq):
+                return base[idx]
             if sym.is_sym(idx):
                 if isinstance(base, (list, tuple)):
                     return sym.SEnum(_ie(idx), base).collapse()
